@@ -166,6 +166,52 @@ func (wt *waitTable) enterMultiWait(names []string) (ws *wakeSignal) {
 	return
 }
 
+// Puts a wake signal that was woken in vain (another client took the element first) back
+// into the wait lists of its objects, at the place its age gives it: the longest-blocked
+// client is still the first to be served.
+func (wt *waitTable) reenterWait(ws *wakeSignal, names []string) {
+	for _, name := range names {
+		list, exists := wt.table[name]
+		if !exists {
+			list = &objectWaitList{
+				name: name,
+			}
+			wt.table[name] = list
+		}
+
+		// signal ids grow with the time of the first registration
+		next := list.queueHead
+		for next != nil && next.signal.id < ws.id {
+			next = next.queueNext
+		}
+		if next == nil {
+			ws.joinWaitList(list)
+			continue
+		}
+
+		ref := &signalListTuple{
+			signal:      ws,
+			waitList:    list,
+			objectsPrev: ws.objectsTail,
+			queuePrev:   next.queuePrev,
+			queueNext:   next,
+		}
+		if next.queuePrev == nil {
+			list.queueHead = ref
+		} else {
+			next.queuePrev.queueNext = ref
+		}
+		next.queuePrev = ref
+
+		if ws.objectsTail == nil {
+			ws.objectsHead = ref
+		} else {
+			ws.objectsTail.objectsNext = ref
+		}
+		ws.objectsTail = ref
+	}
+}
+
 // Removes a client wake signal from all wait lists it is in, because
 // the wait is now unblocked, or the client cancels the wait.
 func (wt *waitTable) unlinkWakeSignal(ws *wakeSignal) {
